@@ -30,7 +30,7 @@ func draw(n int64) int64 {
 	return zzvsched.RandChoice(n)
 }
 
-func Seed(int64)           {}
+func Seed(seed int64)      { zzvsched.RandSeed(seed) }
 func Intn(n int) int       { return int(draw(int64(n))) }
 func Int63n(n int64) int64 { return draw(n) }
 func Int31n(n int32) int32 { return int32(draw(int64(n))) }
